@@ -160,6 +160,12 @@ class Contract:
         """one contract per lane post-condition (multiplicative obligations are discharged one lane per solver call);
         partial-domain division: one contract per constant divisor"""
         import copy
+        if getattr(self, 'far', None):
+            # gather / scatter: the small-object obligation(s) plus the far-index twin (quick tier: up to 4 lanes)
+            me = copy.copy(self)
+            me.far = None
+            far = self.far
+            return me.split(tier) + ([] if (tier == 'quick' and far.far_W > 4) else far.split(tier))
         if getattr(self, 'denom', None):
             return denom_variants(self, tier)
         if getattr(self, 'ctor_consts', None):
@@ -1169,10 +1175,38 @@ def f_gather_scatter(c):
            '%s* buf = malloc(len_in * sizeof(%s));' % (ect, ect), '__CPROVER_assume(buf != 0);',
            'for (int i = 0; i < %d; i++) if ((size_t)i < len_in) buf[i] = init[i];' % L,
            'uint32_t n_in = %s;' % n_expr] + mem_misalign(ect, False)
+    def far_twin(k):
+        # Far indices.  The object above has W + 1 elements, so every index is tiny and an index that is narrowed on its way to
+        # the address (a 64-bit lane through a 32-bit temporary, a 32-bit lane through a 16-bit one) is never seen.  Twin
+        # obligation for 32- and 64-bit index lanes: the object has a symbolic number of elements up to 2^33 (2^31 - 1 for
+        # 32-bit lanes), contents arbitrary; same pre-conditions on the indices, same lane post-conditions (the frame of a
+        # scatter -- nothing else changes -- is the business of the small-object obligation).
+        if it.bits < 32:
+            return
+        import copy
+        big = '(((size_t)1) << 33)' if it.bits == 64 else '((((size_t)1) << 31) - 1)'
+        f = copy.copy(k)
+        f.requires = ['avm_len <= %s' % big] + list(k.requires[1:])
+        fpre = []
+        for l in k.harness['pre']:
+            if l.startswith('size_t len_in ='):
+                l = 'size_t len_in = nondet_sz();'
+            elif l.startswith('__CPROVER_assume(len_in <='):
+                l = '__CPROVER_assume(len_in <= %s);' % big
+            elif l.startswith('for (int i = 0;'):
+                continue
+            fpre.append(l)
+        f.harness = {'pre': fpre, 'args': list(k.harness['args'])}
+        f.ensures = [e for e in k.ensures if 'untouched unless addressed' not in e[0]]
+        f.part = 'far indices: object of up to 2^%d elements' % (33 if it.bits == 64 else 31)
+        f.far_W = W
+        k.far = f
+
     if c.name == 'gather':
         ens = [('gather lane %d' % i, '%s == (%s ? %s : 0)' % (t.lane(RV, i), act(i), bits_of(ect, '%s[%s]' % (p, sidx(i))))) for i in range(W)]
         k = Contract('mem_gather' + ('_n' if len(P) == 3 else '_N'), ['C08', 'C09'], requires=req, ensures=ens, assigns=[], cxx=None)
         k.harness = {'pre': pre + ['%s a1;' % it.ct], 'args': args}
+        far_twin(k)
         return k
     # scatter: active indices pairwise distinct (the property is silent about duplicates).  From 8 lanes on the 28+ pairwise
     # constraints make the query slow: the active indices are required to be strictly increasing instead (a symmetry
@@ -1195,6 +1229,7 @@ def f_gather_scatter(c):
                  assigns=['__CPROVER_object_whole(%s)' % p], cxx=None)
     k.harness = {'pre': pre + ['%s a1;' % t.ct, '%s a2;' % it.ct], 'args': args}
     k.partial = partial
+    far_twin(k)
     return k
 
 
